@@ -10,7 +10,7 @@ PROPERTY = "C09"
 RULE = ("status strings, header names and header values drawn over the whole alphabet (CR, LF, NUL, other CTLs, DEL, obs-text, "
         "non-latin-1, empty, long; forbidden bytes at the start / middle / end) x hop-by-hop names in any case x websocket upgrade x "
         "start_response programs (single call, second call with/without exc_info before/after the first write, optionally caught by the "
-        "application which then carries on with its first response) x body x HTTP/1.0|1.1 "
+        "application which then carries on with its first response; the application mutating its header list after the call) x body x HTTP/1.0|1.1 "
         "x worker class; oracle: if any status/name/value handed to an executed start_response contains CR/LF/NUL or a name is not a "
         "token, nothing of the application's head is on the wire (empty or exactly one server error page); otherwise the head is "
         "line-for-line [status-line, Server, Date, Connection, (Transfer-Encoding)] + one line per accepted header in order, "
@@ -80,6 +80,8 @@ def strategy(tier):
         "mode": st.sampled_from(["list", "write", "write+list", "gen"]),
         "chunks": st.lists(st.sampled_from(["", "a", "hello", "B" * 50]), min_size=0, max_size=3),
         "cl": st.sampled_from([None, None, "exact"]),
+        # the application mutates the list object it passed, after start_response() accepted it
+        "late_headers": st.sampled_from([None, None, None, "append", "replace", "clear", "extend"]),
         "restart": st.one_of(st.none(), st.none(), st.fixed_dictionaries({
             "when": st.sampled_from(["before_write", "after_write"]),
             "exc_info": st.booleans(),
@@ -152,12 +154,117 @@ def is_error_page(data):
     return bool(m) and len(data) - m.end() == int(m.group(1))
 
 
+# ----- two requests inside one gthread worker at the same time (the schedule is the harness's: events between the two applications)
+OVERLAP_HEADS = [
+    ("200 OK", [["X-Who", "alpha"], ["Set-Cookie", "sid=alpha"]], "404 Not Found", [["X-Who", "beta"], ["Set-Cookie", "sid=beta"], ["X-Only-B", "1"]]),
+    ("302 Found", [["Location", "/alpha"]], "200 OK", []),
+    ("200 OK", [], "500 Oops", [["X-Who", "beta"]]),
+]
+
+
+REFUSED_SECOND_CALLS = [["Content-Length", "n/a"], ["Content-Length", ""], ["X-Bad\r\n", "v"], ["X-App", "v\r\nInjected: 1"], ["Bad Name", "x"],
+                        ["X-Nul", "a\x00b"]]
+
+
+def extra_cases(tier, seed, shard, nshards):
+    n = 0
+    # an accepted call, then a call the server refuses (for each kind of refusal) which the application survives: the head is the first call's
+    for bad in REFUSED_SECOND_CALLS:
+        for exc_info in (True, False):
+            for kind in wenv.KINDS:
+                n += 1
+                if n % nshards == shard:
+                    yield {"kind": kind, "version": "1.1", "method": "GET", "status": "200 OK",
+                           "headers": [["Content-Type", "text/plain"], ["X-Page", "home"]], "mode": "list", "chunks": ["ok"], "cl": "exact",
+                           "late_headers": None,
+                           "restart": {"when": "before_write", "exc_info": exc_info, "status": "503 Service Unavailable",
+                                       "headers": [["Set-Cookie", "session=gone"], bad], "cl": None, "catch": True}}
+    for hi in range(len(OVERLAP_HEADS)):
+        for order in ("first-in-first-to-start", "second-in-first-to-start"):
+            for threads in (2, 4):
+                n += 1
+                if n % nshards == shard:
+                    yield {"engine": "W2", "heads": hi, "order": order, "threads": threads}
+
+
+EXHAUSTIVE_NOTE = ("accepted call followed by a refused-and-survived call: 6 kinds of refusal x exc_info x 4 worker classes; engine W2: %d heads x 2 start_response orders x 2 pool sizes - two requests inside one gthread worker at the same time, "
+                   "each response carries its own application's status and header lines only" % len(OVERLAP_HEADS))
+
+
+def run_overlap(case):
+    import threading
+    from gunicorn.workers.gthread import TConn
+    sa, ha, sb, hb = OVERLAP_HEADS[case["heads"]]
+    ev = {k: threading.Event() for k in ("a_in", "b_in", "a_started", "b_started")}
+    wedged = []
+
+    def wait(k):
+        if not ev[k].wait(10.0):
+            wedged.append(k)
+
+    def app(environ, start_response):
+        if environ["PATH_INFO"] == "/a":
+            ev["a_in"].set()
+            wait("b_in")
+            if case["order"] == "second-in-first-to-start":
+                wait("b_started")
+            start_response(sa, [tuple(h) for h in ha])
+            ev["a_started"].set()
+            return [b"alpha"]
+        ev["b_in"].set()
+        if case["order"] == "first-in-first-to-start":
+            wait("a_started")
+        start_response(sb, [tuple(h) for h in hb])
+        ev["b_started"].set()
+        return [b"beta"]
+
+    cfg = wenv.make_cfg(keepalive=2, worker_connections=10, threads=case["threads"])
+    env = wenv.Env("gthread", cfg, app)
+    socks = {k: wenv.FakeSocket([("GET /%s HTTP/1.1\r\nHost: h\r\nConnection: close\r\n\r\n" % k).encode()]) for k in ("a", "b")}
+    escaped = {}
+
+    def serve(k):
+        try:
+            conn = TConn(cfg, socks[k], socks[k].peer, env.listener.getsockname())
+            conn.init()
+            env.worker.handle(conn)
+            conn.close()
+        except BaseException as e:      # noqa
+            escaped[k] = e
+
+    ta = threading.Thread(target=serve, args=("a",), daemon=True)
+    tb = threading.Thread(target=serve, args=("b",), daemon=True)
+    ta.start()
+    wait("a_in")
+    tb.start()
+    ta.join(30.0)
+    tb.join(30.0)
+    classes = ["engine:W2", "order:" + case["order"], "threads:%d" % case["threads"]]
+    if wedged or ta.is_alive() or tb.is_alive():
+        return Outcome([], False, classes + ["inconclusive:schedule-not-reached"], sample={"case": case, "wedged": wedged})
+    vio = []
+    for k, status, headers, other in (("a", sa, ha, hb), ("b", sb, hb, ha)):
+        data = socks[k].received()
+        head = data.split(b"\r\n\r\n")[0].decode("latin-1").split("\r\n")
+        mine = ["%s: %s" % (n, v) for n, v in headers]
+        app_lines = [l for l in head[1:] if l.split(":")[0].lower() not in ("server", "date", "connection", "transfer-encoding", "content-length")]
+        if k in escaped or head[0] != "HTTP/1.1 " + status or app_lines != mine:
+            vio.append(Violation("one-line-per-accepted-header", "C09/overlap:response-carries-another-requests-head",
+                                 observed={"request": k, "status_line": head[0], "app_lines": app_lines, "escaped": repr(escaped.get(k)), "case": case},
+                                 expected={"status": status, "lines": mine}))
+            break
+    return Outcome(vio, True, classes, key="W2|%s|%s|%s" % (case["heads"], case["order"], case["threads"]),
+                   sample={"case": case, "wire_a": socks["a"].received()[:200]})
+
+
 def run_case(case):
+    if case.get("engine") == "W2":
+        return run_overlap(case)
     kind = case["kind"]
     total = sum(len(c) for c in case["chunks"])
     h1 = with_cl(case["headers"], case["cl"], total)
     prog = {"status": case["status"], "headers": h1, "mode": case["mode"], "chunks": case["chunks"],
-            "read_input": "none", "lazy_start": False}
+            "read_input": "none", "lazy_start": False, "late_headers": case.get("late_headers")}
     r = case.get("restart")
     if r:
         if case["mode"] not in ("write", "write+list") and r["when"] == "after_write":
